@@ -17,11 +17,12 @@ Lemma helper_chosen_per_chunk_spec : helper_chosen_per_chunk = true. Proof. vm_c
 Lemma lifespan_read_from_current_params_spec : lifespan_read_from_current_params = true. Proof. vm_compute. reflexivity. Qed.
 Lemma ordered_calls_set_and_clear_flag_spec : ordered_calls_set_and_clear_flag = true. Proof. vm_compute. reflexivity. Qed.
 Lemma failure_terminates_and_clears_spec : failure_terminates_and_clears = true. Proof. vm_compute. reflexivity. Qed.
+Lemma cut_short_terminates_spec : cut_short_terminates = true. Proof. vm_compute. reflexivity. Qed.
 Lemma eq_compares_all_fields_spec : eq_compares_all_fields = true. Proof. vm_compute. reflexivity. Qed.
 
 Ltac facts := rewrite ?setters_reset_comms_spec, ?changed_settings_restart_spec, ?new_params_shipped_spec,
   ?fresh_workers_when_none_spec, ?helper_chosen_per_chunk_spec, ?lifespan_read_from_current_params_spec,
-  ?ordered_calls_set_and_clear_flag_spec, ?failure_terminates_and_clears_spec in *.
+  ?ordered_calls_set_and_clear_flag_spec, ?failure_terminates_and_clears_spec, ?cut_short_terminates_spec in *.
 
 Lemma opt_eqb_eq a b : opt_eqb a b = true -> a = b.
 Proof. destruct a, b; cbn; intros H; try discriminate; try reflexivity. apply Nat.eqb_eq in H. congruence. Qed.
@@ -218,14 +219,15 @@ Qed.
 (* whatever happened before, right after a FAILED call every later history behaves exactly as on a
    freshly constructed pool with the same settings: fresh workers, own parameters, own ordering
    mode, nothing of the failed call left *)
-Theorem post_failure_fresh l k h ordered mp later :
-  let s := fst (hstep (hstate (hinit l k) h) (HCall ordered mp Fails)) in
+Theorem post_failure_fresh l k h ordered mp out later :
+  out <> Ok ->
+  let s := fst (hstep (hstate (hinit l k) h) (HCall ordered mp out)) in
   map strip (hrun s later) = map strip (hrun (hinit (p_layout s) (p_keep_alive s)) later).
 Proof.
-  intros s. apply same_future_run.
+  intros Hout s. apply same_future_run.
   assert (HIs : HI s) by (apply hstep_HI; apply hstate_HI; apply hinit_HI).
   destruct HIs as (Hk & _ & _).
-  assert (Ha : alive s = false) by (unfold s; cbn [hstep fst]; facts; reflexivity).
+  assert (Ha : alive s = false) by (unfold s; destruct out; [congruence| |]; cbn [hstep fst]; facts; reflexivity).
   unfold same_future, hinit; cbn. split; [assumption|]. split; [reflexivity|]. split; [reflexivity|].
   left. split; [assumption|reflexivity].
 Qed.
